@@ -253,6 +253,9 @@ func (st *SortTable) SortOf(t types.Type) string {
 }
 
 func (st *SortTable) FieldSel(sortName string, u *types.Struct, i int) string {
+	if n := u.Field(i).Name(); n == "_" || n == "" {
+		return fmt.Sprintf("%s..blank%d", sortName, i)
+	}
 	return fmt.Sprintf("%s..%s", sortName, sanitize(u.Field(i).Name()))
 }
 
